@@ -47,7 +47,7 @@ int vnacal_new_set_pvalue_limit(vnacal_new_t *vnp, double significance)
     }
     vcp = vnp->vn_vcp;
     if (isnan(significance) || significance <= 0.0 || significance > 1.0) {
-	_vnacal_error(vcp, VNAERR_USAGE, "vnacal_new_set_p_tolerance: "
+	_vnacal_error(vcp, VNAERR_USAGE, "vnacal_new_set_pvalue_limit: "
 		"significance must be between 0 and 1");
 	return -1;
     }
